@@ -62,6 +62,7 @@ theorem postProcess_spec {argsort : List Int → List Nat} (hs : ∀ key, IsArgs
     (hidx : shuffle = true → index.Perm (List.range N)) :
     ∃ f, postProcess argsort (ofLabels a k) index sortClusters shuffle bipartite nRow = .ok f ∧
       ValidClustering N (allLabels f) sortClusters ∧
+      f = splitVars bipartite nRow (allLabels f) ∧
       ∃ L, SamePartition a L ∧
         (if shuffle then ∀ j, j < N → (allLabels f)[index.getD j 0]? = L[j]? else allLabels f = L) := by
   obtain ⟨hlen, hsame, k', hvalid⟩ := sortedLabels_spec hs sortClusters hc
@@ -71,20 +72,22 @@ theorem postProcess_spec {argsort : List Int → List Nat} (hs : ∀ key, IsArgs
     sortedLabels argsort sortClusters a from rfl]
   cases shuffle with
   | false =>
-    refine ⟨splitVars bipartite nRow (sortedLabels argsort sortClusters a), rfl, ?_, _, hsame, ?_⟩
+    refine ⟨splitVars bipartite nRow (sortedLabels argsort sortClusters a), rfl, ?_, ?_, _, hsame, ?_⟩
     · rw [allLabels_splitVars]
       exact validClustering_of_validK (hlen.trans hN) hvalid
+    · rw [allLabels_splitVars]
     · simp [allLabels_splitVars]
   | true =>
     have hp : index.Perm (List.range (sortedLabels argsort sortClusters a).length) := by
       rw [hlen, hN]; exact hidx rfl
     have hok := unshuffle_ok hp
     refine ⟨splitVars bipartite nRow ((reverseOf index).map fun r => (sortedLabels argsort sortClusters a).getD r 0),
-      ?_, ?_, _, hsame, ?_⟩
+      ?_, ?_, ?_, _, hsame, ?_⟩
     · simp [hok, bind, Except.bind, pure, Except.pure]
     · rw [allLabels_splitVars]
       refine validClustering_of_validK ?_ (hvalid.of_perm (unshuffle_perm hp hok).symm)
       rw [unshuffle_length hp hok, hlen, hN]
+    · rw [allLabels_splitVars]
     · simp only [if_true, allLabels_splitVars]
       intro j hj
       exact unshuffle_getElem? hp hok (by rw [hlen, hN]; exact hj)
@@ -98,7 +101,7 @@ theorem louvainFit_spec {argsort : List Int → List Nat} (hs : ∀ key, IsArgso
     (hidx : shuffle = true → index.Perm (List.range N)) :
     louvainFit argsort kernel nAgg fuel N index sortClusters shuffle bipartite nRow = .ok none ∨
     ∃ f count, louvainFit argsort kernel nAgg fuel N index sortClusters shuffle bipartite nRow = .ok (some (f, count)) ∧
-      ValidClustering N (allLabels f) sortClusters := by
+      ValidClustering N (allLabels f) sortClusters ∧ f = splitVars bipartite nRow (allLabels f) := by
   unfold louvainFit
   have hc0 : Contiguous (List.range N) N :=
     ⟨fun x hx => List.mem_range.mp hx, fun c hc => List.mem_range.mpr hc⟩
@@ -107,8 +110,8 @@ theorem louvainFit_spec {argsort : List Int → List Nat} (hs : ∀ key, IsArgso
   · left; simp [h, bind, Except.bind, pure, Except.pure]
   · right
     rw [List.length_range] at hl
-    obtain ⟨f, hf, hv, _⟩ := postProcess_spec hs hl hc sortClusters shuffle bipartite nRow hidx
-    exact ⟨f, c', by simp [h, hf, bind, Except.bind, pure, Except.pure], hv⟩
+    obtain ⟨f, hf, hv, hsplit, _⟩ := postProcess_spec hs hl hc sortClusters shuffle bipartite nRow hidx
+    exact ⟨f, c', by simp [h, hf, bind, Except.bind, pure, Except.pure], hv, hsplit⟩
 
 theorem SamePartition.trans {α β γ : Type} [DecidableEq α] [DecidableEq β] [DecidableEq γ]
     {a : List α} {b : List β} {c : List γ} (h1 : SamePartition a b) (h2 : SamePartition b c) :
